@@ -224,7 +224,7 @@ def make_case(cid, prog, pi, var, ops, seed=0, cpool=0, want_summary=False):
     ops2 = []
     for op in ops:
         op = dict(op)
-        if op["op"] == "push":
+        if op["op"] in ("push", "set"):
             op["rel"] = op["rel"] + sfx
         ops2.append(op)
     case = {"id": cid, "prog": prog["name"], "pi": pi, "var": var, "mode": "par" if vi["par"] else "ser",
@@ -328,6 +328,8 @@ def normalise(case, prog, events):
             out.append({"e": "case", "id": case["id"], "pi": case["pi"], "mode": case["mode"]})
         elif k == "push":
             out.append({"e": "push", "rel": relname(e["rel"]), "rows": e["rows"]})
+        elif k == "set":
+            out.append({"e": "set", "rel": relname(e["rel"]), "rows": e["rows"]})
         elif k == "call":
             out.append({"e": "call", "kind": e["kind"], "k": e["k"]})
         elif k == "ins":
